@@ -31,10 +31,16 @@ def materialise(d, assignment):
     os.mkdir(os.path.join(d, b"_d"))
     with open(os.path.join(d, b"_f"), "wb") as f:
         f.write(b"f")
+    # directories with the implicit names one level further down (lib/pkgconfig, share/bin, ...) mean nothing
+    for inner in SUBS:
+        os.makedirs(os.path.join(d, b"_d", inner))
+        os.makedirs(os.path.join(d, b"share", inner))
     for sub, kind in zip(SUBS, assignment):
         p = os.path.join(d, sub)
         if kind == "dir":
             os.mkdir(p)
+            for inner in SUBS:
+                os.mkdir(os.path.join(p, inner))
         elif kind == "file":
             with open(p, "wb") as f:
                 f.write(b"x")
@@ -146,7 +152,7 @@ def run(tier, seed, work):
     for a in base_assignments:
         for x in xnames:
             cases.append((len(cases), b"layer", a, x))
-    dnames = [b"with space", b"caf\xc3\xa9", b"\xff\xfe", b"dot.ted", b"-dash"]
+    dnames = [b"with space", b"caf\xc3\xa9", b"\xff\xfe", b"dot.ted", b"-dash", b"registry.local:5000_app", b":", b"a;b", b"$HOME"]      # ':' is the path-list separator
     if True:
         for _ in range(3000 if tier == "quick" else 200000):
             a = tuple(r.choice(XKINDS) for _ in range(4))
